@@ -152,7 +152,7 @@ fn c03_diverges(s: &str, utf8: bool) -> bool {
 }
 
 /// complete, aborted and skipped sequences of every kind the grammar knows
-fn seq_pool() -> Vec<String> {
+pub fn seq_pool() -> Vec<String> {
     let mut v: Vec<String> = Vec::new();
     for f in "cDEMH78Zq".chars() {
         v.push(format!("\x1b{}", f));
@@ -306,11 +306,20 @@ impl Check for C03Check {
                     if !cx.mine((n as u64) * 31 + f as u64) {
                         continue;
                     }
-                    let runs = [
+                    let mut runs = vec![
                         "9".repeat(n),
                         format!("1{}", "0".repeat(n - 1)),
                         (0..n).map(|_| (b'0' + cx.rng.below(10) as u8) as char).collect::<String>(),
                     ];
+                    // values around the machine-integer widths (2^k - 1, 2^k, 2^k + small, and
+                    // multiples of 2^32 plus a small remainder), with leading zeros
+                    let k = [8u32, 15, 16, 31, 32, 33, 48, 63, 64, 65, 96, 100][n % 12];
+                    let p: u128 = 1u128 << k;
+                    for v in [p - 1, p, p + 1, p + 7, p + 9998, 3 * p + 2, p + (1u128 << 32) + 25] {
+                        runs.push(v.to_string());
+                    }
+                    runs.push(format!("{}{}", "0".repeat(n), p + 5));
+                    runs.push(format!("{}7", "0".repeat(n)));
                     for r in runs {
                         c03_run(cx, &format!("\x1b[{}{}", r, f), true, "digits");
                         c03_run(cx, &format!("\x1b[3;{};{}{}", r, r, f), true, "digits");
